@@ -117,4 +117,21 @@ def ref_map_slice_args(mapping, key, offset):
     return out
 
 
-REFS = dict(ref_map_slice_args=ref_map_slice_args, ref_windows=ref_windows, observed_windows=observed_windows, windows_agree=windows_agree, ref_tb_equals=ref_tb_equals, ref_slices_from_targets=ref_slices_from_targets)
+def ref_set_fold(arrays, union):
+    """labels set algebra prescribes for ufunc_set_iter: (frozenset of labels); 2-D arrays: rows are labels"""
+    def labs(a):
+        a = getattr(a, 'a', a)      # proxy -> ndarray
+        return frozenset(tuple(r) for r in a.tolist()) if a.ndim == 2 else frozenset(a.tolist())
+    sets = [labs(a) for a in arrays]
+    out = sets[0]
+    for s_ in sets[1:]:
+        out = (out | s_) if union else (out & s_)
+    return out
+
+
+def labels_of_array(a):
+    a = getattr(a, 'a', a)
+    return frozenset(tuple(r) for r in a.tolist()) if a.ndim == 2 else frozenset(a.tolist())
+
+
+REFS = dict(ref_set_fold=ref_set_fold, labels_of_array=labels_of_array, ref_map_slice_args=ref_map_slice_args, ref_windows=ref_windows, observed_windows=observed_windows, windows_agree=windows_agree, ref_tb_equals=ref_tb_equals, ref_slices_from_targets=ref_slices_from_targets)
